@@ -658,11 +658,21 @@ NvmModule *asm_assemble(const char *source, AsmResult *result) {
         memcpy(line_buf, line_start, line_len);
         line_buf[line_len] = '\0';
 
-        /* Strip trailing comment */
-        char *comment = strchr(line_buf, ';');
-        if (comment) *comment = '\0';
-        comment = strchr(line_buf, '#');
-        if (comment) *comment = '\0';
+        /* Strip trailing comment (a ';' or '#' inside a quoted string is not a comment) */
+        {
+            bool in_quotes = false;
+            for (char *c = line_buf; *c; c++) {
+                if (in_quotes) {
+                    if (*c == '\\' && c[1] != '\0') c++;      /* skip the escaped character */
+                    else if (*c == '"') in_quotes = false;
+                } else if (*c == '"') {
+                    in_quotes = true;
+                } else if (*c == ';' || *c == '#') {
+                    *c = '\0';
+                    break;
+                }
+            }
+        }
 
         /* Strip trailing whitespace */
         size_t len = strlen(line_buf);
